@@ -117,7 +117,8 @@ static void c08_case (long idx, vf_rng *r)
         static const pixman_fixed_t scs[] = { 65536, 65536, 32768, 131072, 65536 / 4 }; static const pixman_fixed_t frs[] = { 0x8000, 0x8001, 0x7fff, 0x8001, 0 };
         s->tr_class = TR_SCALE_POS; pixman_transform_init_identity (&s->tr); s->tr.matrix[0][0] = VF_PICK (r, scs); s->tr.matrix[1][1] = vf_chance (r, 1, 2) ? 65536 : VF_PICK (r, scs);
         s->tr.matrix[0][2] = (pixman_fixed_t)(vf_range (r, -3, 9) * 65536) + VF_PICK (r, frs); s->tr.matrix[1][2] = (pixman_fixed_t)(vf_range (r, -2, 4) * 65536) + VF_PICK (r, frs);
-        s->repeat = PIXMAN_REPEAT_NORMAL; s->w = (int)vf_range (r, 1, 9); s->h = (int)vf_range (r, 1, 5); if (vf_chance (r, 2, 3)) s->fmt = PIXMAN_a8r8g8b8;
+        s->repeat = PIXMAN_REPEAT_NORMAL; s->w = vf_chance (r, 1, 2) ? (int)vf_range (r, 1, 9) : (int)vf_range (r, 64, 100);   /* from 64 pixels on, the scaled fast paths walk the source itself instead of an extended copy */
+        s->h = (int)vf_range (r, 1, 5); if (vf_chance (r, 2, 3)) s->fmt = PIXMAN_a8r8g8b8;
         s->filter = vf_chance (r, 2, 3) ? PIXMAN_FILTER_NEAREST : PIXMAN_FILTER_BILINEAR; s->n_params = 0; q.sx = (int)vf_range (r, 0, 3); q.sy = 0; wrap_class = 1;
     }
     /* OVER (exact 8-bit rule on the a8r8g8b8 destination) for the exactly judged classes: the scaled fast paths have separate OVER routines */
